@@ -317,6 +317,13 @@ class Interp:
             v = self.const_value(op, fn)
             if isinstance(v, tuple) and v and v[0] == "promoted":
                 return self.eval_promoted(fn, v[1], st)
+            if isinstance(v, tuple) and v and v[0] == "str" and v[1].startswith('b"') and v[1].endswith('"'):
+                try:
+                    import ast
+                    bs = ast.literal_eval(v[1])
+                    return self.heap_alloc(st, arr([const(x, 8) for x in bs]))
+                except Exception:
+                    return v
             return v
         if k in ("copy", "move"):
             v = self.read_place(fn, fid, op["p"], st)
